@@ -154,6 +154,14 @@ CHECKS = {
         design_ref="DESIGN.md section 3, C15",
         note="Exact decade boundaries are excluded (the library decides them with a floating-point logarithm); to_preferred needs the optional mip "
              "solver and is only exercised when importable."),
+    "C20": dict(
+        technique="hand-curated standards table as the specification; its internal consistency relations and every registry answer checked by the TLC trace spec Trace_Std in modular fingerprint arithmetic",
+        text="234 units and constants, 32 prefixes and 3 temperature scales curated from the SI brochure, NIST SP 811 / Handbook 44, the 1959 yard and pound "
+             "agreement, the Weights and Measures Act 1985, IAU 2012 and CODATA 2022 (never generated from the definition files); Trace_Std first checks "
+             "43 consistency relations of the table itself (12 inch = foot ... kibi = 2^10) and then compares, entry by entry, the exact SI factor "
+             "of the Fraction registry (as residues), the symbol and the dimensionality; the float registry must agree within 4 ulp.",
+        design_ref="DESIGN.md section 3, C20",
+        note="This is the thinnest use of the technique: the specification is the table. Units outside the table are not covered."),
     "C04": dict(
         technique="TLA+ spec (UnitAlgebra, LinAlg) model-checked with TLC; TLC-generated cases replayed into pint; recorded operations validated by a TLC trace spec",
         text="TLC checks exhaustively (3 names, exponents -2..2 and +-1/2, all pairs, all powers, triples) that the operational model of "
